@@ -58,3 +58,42 @@ Definition env_spec_ok (cur : option str) (dflt : option str) (out : eres) : boo
   | None, None, ERaise => true                   (* unset, no default: raises *)
   | _, _, _ => false
   end.
+
+(* ---- results as OBJECTS: histories in which results of earlier gets are still held while later gets and later
+   setenv/unsetenv calls run, and are read only afterwards.  `std::string get(...)` returns a fresh string object per
+   call: the state keeps every outcome ever produced (hres, in order of creation; a raising get leaves ERaise in its
+   place), HRead k looks at outcome k at any later time.  That a read always finds the text the get returned — the
+   result is a VALUE — is proved in EnvProofs.v (held_result_stable, get_result_is_value). ---- *)
+Definition env_step_env (e : environ) (o : eop) : environ :=
+  match o with ESet n v => env_set e n v | EUnset n => env_unset e n | _ => e end.
+
+Definition env_res (e : environ) (o : eop) : option eres :=
+  match o with
+  | EGet n d => Some (EOk (env_get_default (env_lookup e) n d))
+  | EGetDefaulted n => Some (EOk (env_get_default (env_lookup e) n []))
+  | EGetNoDefault n => Some (env_get_nodefault (env_lookup e) n)
+  | _ => None
+  end.
+
+Record hstate := mkHS { henv : environ; hres : list eres }.
+Inductive hop := HOp (o : eop) | HRead (k : nat).
+
+Definition h_init (e : environ) : hstate := mkHS e [].
+
+Definition h_step (st : hstate) (o : hop) : hstate * option eres :=
+  match o with
+  | HOp o => (mkHS (env_step_env (henv st) o)
+                   (match env_res (henv st) o with Some r => hres st ++ [r] | None => hres st end), None)
+  | HRead k => (st, nth_error (hres st) k)
+  end.
+
+Fixpoint h_run (st : hstate) (ops : list hop) : hstate :=
+  match ops with [] => st | o :: r => h_run (fst (h_step st o)) r end.
+
+(* what the reads of a history see, in order *)
+Fixpoint h_obs (st : hstate) (ops : list hop) : list (option eres) :=
+  match ops with
+  | [] => []
+  | HRead k :: r => snd (h_step st (HRead k)) :: h_obs st r
+  | o :: r => h_obs (fst (h_step st o)) r
+  end.
